@@ -27,7 +27,7 @@ REQUIRED_TRUE = ["EditDistance", "EditCollection", "KeyValuePairEdit", "StringEd
                  "IterativeTighteningSearch"]
 MINIMUMS = {"quick": dict({f"{c}.tighten_bounds:True": 5 for c in REQUIRED_TRUE}, **{"cases_judged": 5000}),
             "thorough": dict({f"{c}.tighten_bounds:True": 50 for c in REQUIRED_TRUE}, **{"cases_judged": 100000})}
-MODES = ["diff", "tight", "alledits", "stop-resume", "nonzero"]
+MODES = ["diff", "tight", "alledits", "stop-resume", "nonzero", "sub-first", "render-then-refine", "sub-first", "render-then-refine"]
 
 
 def plan(tier, seed):
@@ -73,7 +73,7 @@ def gen_cases(spec, ctx):
         case = dict(case)
         case["mode"] = r.choice(MODES)
         case["quiet"] = r.random() < 0.5
-        case["k"] = r.randint(0, 6)
+        case["k"] = r.randint(0, 6) if case["mode"] == "stop-resume" else r.randrange(1 << 20)
         yield case
 
 
@@ -116,8 +116,53 @@ def setup(ctx):
     monitors.TRACER.install()
 
 
-def drive(ta, tb, mode, k):
+def drive(ta, tb, mode, k, family="json"):
     from graphtage.tree import CompoundEdit
+    import random as _random
+    if mode == "sub-first":
+        # refinement sequences are not only top-down: sub-edits handed out by edits() may be refined by their holder
+        # (a formatter, edited_cost() of a nested node, a client) before the parent is asked again
+        rr = _random.Random(k)
+        e = ta.edits(tb)
+        e.bounds()
+        if rr.random() < 0.5:
+            monitors.full(e)
+        subs = [x for x in monitors.walk_script(e) if x is not e]
+        rr.shuffle(subs)
+        for x in subs[:rr.randint(1, 6)]:
+            if rr.random() < 0.5:
+                monitors.tight(x)
+            else:
+                for _ in range(rr.randint(1, 3)):
+                    if not x.tighten_bounds():
+                        break
+            e.bounds()
+        for x in monitors.walk_script(e):
+            x.bounds()
+        monitors.tight(e)
+        for x in monitors.walk_script(e):
+            x.bounds()
+            x.tighten_bounds()
+        return
+    if mode == "render-then-refine":
+        import io
+        import graphtage.printer as gp
+        from gv.props.c05 import _formatter
+        d = ta.diff(tb)
+        try:
+            _formatter(family).print(gp.Printer(out_stream=io.StringIO(), ansi_color=False, quiet=True), d)
+        except Exception:
+            pass        # rendering completeness is C13's
+        nodes = list(d.dfs())
+        for n in reversed(nodes):          # nested nodes first, as a client inspecting the diff tree bottom-up would
+            if hasattr(n, "edited_cost"):
+                n.edited_cost()
+        for top in (getattr(d, "edit_list", None) or []):
+            for x in monitors.walk_script(top):
+                x.bounds()
+                x.tighten_bounds()
+            monitors.tight(top)
+        return
     if mode == "diff":
         d = ta.diff(tb)
         d.edited_cost()
@@ -175,7 +220,7 @@ def check(case, ctx):
                     m.bounds()
             else:
                 ta, tb = families.build(case)
-                drive(ta, tb, case["mode"], case.get("k", 0))
+                drive(ta, tb, case["mode"], case.get("k", 0), case.get("family", "json"))
     except core.Budget as ex:
         diags.append({"kind": "non-termination-budget", "msg": str(ex)[:300]})
     except Exception as ex:  # noqa  (internal errors are C05's; recorded here so they are not silently lost)
